@@ -38,6 +38,7 @@ let engines : (string * (z list -> (z list * z list) list -> verdict)) list = [
   ("batch", chk_batch);
   ("maptree", chk_maptree);
   ("nested", chk_nested);
+  ("codecinl", chk_codecinl);
 ]
 
 let () =
